@@ -17,33 +17,61 @@ the code-free lemmas lemma_shift400 and lemma_nday_lift.
 """
 
 NDAY_GHOST0 = """
-const year_t g_qc = cd / 146097;
-const year_t g_qd = d / 146097;
-const year_t g_K = g_qc * 400 + g_qd * 400;
-const int g_R = (int)(cd % 146097) + (int)(d % 146097);
-const int g_O = (int)(y % 400);
 const int g_m0 = m;
 const diff_t g_d0 = d;
 const diff_t g_cd0 = cd;
-lemma_quot_bounds(cd, d);
+const year_t g_qc = cd / 146097;
+const year_t g_qd = d / 146097;
+const diff_t g_rc = cd % 146097;
+const diff_t g_rd = d % 146097;
+const int g_j1 = (g_rc < 0) ? 1 : 0;
+USE(lemma_quot_bounds_REQ(cd, d, g_qc, g_qd, g_rc, g_rd), lemma_quot_bounds_ENS(cd, d, g_qc, g_qd, g_rc, g_rd), "quot_bounds");
 """
-# E: the small year; the day/month-relative conservation law
-E = "((int)((Z)ey - (Z)g_K))"
-E_RANGE = "(-1300 <= (Z)ey - (Z)g_K && (Z)ey - (Z)g_K <= 2100)"
-CONS_Y = "(ORD_I(%s, m, 1) + (int)d - 1 == ORD_I(g_O, g_m0, 1) + g_R - 1)" % E
-CONS_M = "(ORD_I(%s, m, (int)d) == ORD_I(g_O, g_m0, 1) + g_R - 1)" % E
+# The quotients/remainders by 146097 are named once at entry, spelled exactly as the code spells them (so the
+# divisions are shared with the code's own); everything else is spelled over those names.
+QC = "g_qc"
+QD = "g_qd"
+ZE = "LIFT_E(ey, g_qc, g_qd)"          # (Z)ey - (Z)K : the small year, 128-bit
+E = "((int)LIFT_E(ey, g_qc, g_qd))"    # the small year, int
+R = "LIFT_R(g_rc, g_rd)"
+O = "((int)(oey))"
 CYC = "(m > 2 ? 1 : 0)"
+RHS = "(ORDI(%s, g_m0, 1) + %s - 1)" % (O, R)
+CONS_Y = "(ORDI(%s, m, 1) + (int)d - 1 == %s)" % (E, RHS)
+CONS_M = "(ORDI(%s, m, 1) + (int)d - 1 == %s)" % (E, RHS)     # same law; m varies in the month loop
+EB = lambda lo, hi: "(%d <= %s && %s <= %d)" % (lo, ZE, ZE, hi)
 
-CUT_A = "(1 <= d && d <= 146097 && m == g_m0 && -1300 <= (Z)ey - (Z)g_K && (Z)ey - (Z)g_K <= 800 && %s)" % CONS_Y
-CUT_B = "(1 <= d && d <= 366 && m == g_m0 && %s && %s)" % (E_RANGE, CONS_Y)
+
+def SHIFT(x, e):
+    return 'USE(lemma_shift400_REQ(%s, %s, %s, %s), lemma_shift400_ENS(%s, %s, %s, %s), "shift400");' % (x, QC, QD, e, x, QC, QD, e)
+
+
+def cut(P, msg):
+    return 'STEP(%s, "%s");' % (P, msg)
+
+
+def use(lemma, args, msg=None):
+    a = ', '.join(args)
+    return 'USE(lemma_%s_REQ(%s), lemma_%s_ENS(%s), "%s");' % (lemma, a, lemma, a, msg or lemma)
+
+
+A1 = "(0 <= cd && cd < 146097 && cd == g_rc + 146097 * g_j1 && (Z)ey == (Z)oey + (Z)%s * 400 - 400 * g_j1 && -400 < oey && oey < 400)" % QC
+A2 = "(d == (diff_t)%s + 146097 * g_j1 && %s == %s - 400 * g_j1 && m == g_m0 && -146097 < d && d < 2 * 146097)" % (R, ZE, O)
+CUT_A = "(1 <= d && d <= 146097 && m == g_m0 && %s && %s)" % (EB(-1300, 800), CONS_Y)
+CUT_B = "(1 <= d && d <= 366 && m == g_m0 && %s && %s)" % (EB(-1300, 1300), CONS_Y)
+
+
+def period(j):
+    return use('I_period', [O, "(%s)" % j, 'g_m0', '1'], 'I_period')
+
 
 YEAR_COMMON = """
 __CPROVER_loop_invariant(1 <= d && d <= g_DA && g_DA <= 146097 && m == g_m0)
-__CPROVER_loop_invariant(-1300 <= (Z)g_EA - (Z)g_K && (Z)g_EA - (Z)g_K <= 800)
-__CPROVER_loop_invariant(g_EA <= ey && (Z)365 * ((Z)ey - (Z)g_EA) <= (Z)g_DA - (Z)d)
+__CPROVER_loop_invariant(-1300 <= g_EA && g_EA <= 800 && %s)
+__CPROVER_loop_invariant(g_EA <= %s && %s - g_EA <= 400 && 365 * (%s - g_EA) <= g_DA - (int)d)
 __CPROVER_loop_invariant(%s)
-""" % CONS_Y
-YI_INV = "__CPROVER_loop_invariant(0 <= yi && yi < 400 && yi == FM(%s + %s, 400))\n" % (E, CYC)
+""" % (EB(-1300, 1300), E, E, E, CONS_Y)
+YI_INV = "__CPROVER_loop_invariant(0 <= yi && yi < 400 && yi == FMI(%s + %s))\n" % (E, CYC)
 
 LOOPS = {
     'n_day': {
@@ -52,28 +80,96 @@ LOOPS = {
         3: "__CPROVER_assigns(d, ey)" + YEAR_COMMON + "__CPROVER_decreases(d)",
         4: """__CPROVER_assigns(d, ey, m)
 __CPROVER_loop_invariant(1 <= m && m <= 12 && 1 <= d && d <= g_DB && g_DB <= 366)
-__CPROVER_loop_invariant(-1300 <= (Z)g_EB - (Z)g_K && (Z)g_EB - (Z)g_K <= 2000)
-__CPROVER_loop_invariant(g_EB <= ey && (Z)28 * ((Z)12 * ((Z)ey - (Z)g_EB) + ((Z)m - (Z)g_m0)) <= (Z)g_DB - (Z)d)
+__CPROVER_loop_invariant(-1300 <= g_EB && g_EB <= 1300 && %s)
+__CPROVER_loop_invariant(g_EB <= %s && %s - g_EB <= 2 && 28 * (12 * (%s - g_EB) + (m - g_m0)) <= g_DB - (int)d)
 __CPROVER_loop_invariant(%s)
-__CPROVER_decreases(d)""" % CONS_M,
+__CPROVER_decreases(d)""" % (EB(-1300, 1400), E, E, E, CONS_M),
     },
 }
 GHOST = {
     'n_day': {
         0: NDAY_GHOST0,
-        1: "const year_t g_EA = ey;\nconst diff_t g_DA = d;",
-        4: "const year_t g_EB = ey;\nconst diff_t g_DB = d;",
+        1: "const int g_EA = %s;\nconst int g_DA = (int)d;" % E,
+        4: "const int g_EB = %s;\nconst int g_DB = (int)d;" % E,
     },
 }
+LEAPSTEP = lambda e: use('I_leapidx', [e])
 HOOKS = {
     'n_day': [
-        # the previous-year shortcut: days_per_year(ey, m) is about the 64-bit year ey; relate it to E
-        (r'd \+= days_per_year \( ey , m \)', "lemma_shift400(ey + %s, g_qc, g_qd);" % CYC),
-        (r'if \( d > 365 \)', '__CPROVER_assert(%s, "ghost cut A: state after the 400-year reduction");\n__CPROVER_assume(%s);' % (CUT_A, CUT_A)),
-        (r'int yi = year_index \( ey , m \)', "lemma_shift400(ey + %s, g_qc, g_qd);" % CYC),
-        (r'int n = days_per_year \( ey , m \)', "lemma_shift400(ey + %s, g_qc, g_qd);" % CYC),
-        (r'if \( d > 28 \)', '__CPROVER_assert(%s, "ghost cut B: state after the year loops");\n__CPROVER_assume(%s);' % (CUT_B, CUT_B)),
-        (r'int n = days_per_month \( ey , m \)', "lemma_shift400(ey, g_qc, g_qd);"),
-        (r'return fields \(', "lemma_shift400(ey, g_qc, g_qd);\nlemma_nday_lift(y, g_m0, g_d0, g_cd0, ey, oey, m, d, WRAP_RY(y, ey, oey));"),
+        (r'ey \+= \( d / 146097 \) \* 400', cut(A1, "ghost cut A1: carry days reduced into [0,146097)")),
+        (r'if \( d > 0 \)', cut(A2, "ghost cut A2: days reduced") + "\n" + period("-g_j1") + "\n" + cut(CONS_Y, "ghost cut A3: conservation law holds after the reduction")),
+        (r'd -= 146097 ;', period("-g_j1 + 1") + "\n" + cut(CUT_A, "ghost cut A(i): one more cycle removed"), 'after'),
+        (r'd \+= 146097 ;', period("-g_j1 - 1") + "\n" + cut(CUT_A, "ghost cut A(ii): one cycle borrowed"), 'after'),
+        # the previous-year shortcut: ey -= 1; d += days_per_year(ey, m)
+        (r'd \+= days_per_year \( ey , m \)', "const diff_t g_dsc = d;\n" + SHIFT("ey + %s" % CYC, "%s + %s" % (E, CYC)) + "\n" +
+            LEAPSTEP("%s + %s" % (E, CYC)) + "\n" + use('I_yearstep', [E, 'm'])),
+        (r'd \+= days_per_year \( ey , m \)', cut("(d == g_dsc + 365 + (LEAPI(%s + %s) ? 1 : 0))" % (E, CYC), "ghost cut: days of the previous year") + "\n" +
+            cut(CUT_A, "ghost cut A(iii): previous-year shortcut"), 'after'),
+        (r'if \( d > 365 \)', cut(CUT_A, "ghost cut A: state after the 400-year reduction")),
+        (r'int yi = year_index \( ey , m \)', SHIFT("ey + %s" % CYC, "%s + %s" % (E, CYC)) + "\n" + LEAPSTEP("%s + %s" % (E, CYC))),
+        (r'int yi = year_index \( ey , m \)', cut("(0 <= yi && yi < 400 && yi == FMI(%s + %s))" % (E, CYC), "ghost cut: year index of the small year"), 'after'),
+        # loop 1: centuries
+        (r'int n = days_per_century \( yi \)', use('I_centstep', [E, 'm']) + "\n" + use('I_fmstep', ["%s + %s" % (E, CYC), '100'])),
+        # loop 2: four-year groups
+        (r'int n = days_per_4years \( yi \)', use('I_4step', [E, 'm']) + "\n" + use('I_fmstep', ["%s + %s" % (E, CYC), '4'])),
+        # loop 3: years
+        (r'int n = days_per_year \( ey , m \)', SHIFT("ey + %s" % CYC, "%s + %s" % (E, CYC)) + "\n" +
+            LEAPSTEP("%s + %s" % (E, CYC)) + "\n" + use('I_yearstep', [E, 'm'])),
+        (r'int n = days_per_year \( ey , m \)', cut("(n == 365 + (LEAPI(%s + %s) ? 1 : 0))" % (E, CYC), "ghost cut: days of this year"), 'after'),
+        (r'if \( d > 28 \)', cut(CUT_B, "ghost cut B: state after the year loops")),
+        # loop 4: months
+        (r'int n = days_per_month \( ey , m \)', SHIFT("ey", E) + "\n" + LEAPSTEP(E) + "\n" + use('I_monthstep', [E, 'm'])),
+        (r'int n = days_per_month \( ey , m \)', cut("(n == DIM(LEAPI(%s), m))" % E, "ghost cut: days of this month"), 'after'),
+        (r'return fields \(', use('I_day', [E, 'm', '(int)d']) + "\n" +
+            cut("(1 <= m && m <= 12 && 1 <= d && d <= 31 && d <= DIM(LEAPI(%s), m) && %s && ORDI(%s, m, (int)(d)) == %s)" % (E, EB(-1300, 2100), E, RHS), "ghost cut C: final state in the small frame") + "\n" +
+            "REVEAL_NDAY_PRE(y, g_m0, g_d0, g_cd0);\n" +
+            "USE(lemma_nday_lift_REQ(y, g_m0, g_d0, g_cd0, g_qc, g_qd, g_rc, g_rd, ey, oey, m, d, WRAP_RY(y, ey, oey)), lemma_nday_lift_ENS(y, g_m0, g_d0, g_cd0, g_qc, g_qd, g_rc, g_rd, ey, oey, m, d, WRAP_RY(y, ey, oey)), \"nday_lift\");\n" +
+            cut("(NDAY_POST_DEF(WRAP_RY(y, ey, oey), m, d, y, g_m0, g_d0, g_cd0) && y + (ey - oey) == WRAP_RY(y, ey, oey))", "ghost cut D: the postcondition holds for the value about to be returned") + "\n" +
+            cut("((g_cd0 == 0 && 1 <= g_d0 && g_d0 <= 28) ? (ey == oey && m == g_m0 && d == g_d0) : 1)", "ghost cut E: already normalised input is returned unchanged")),
     ],
 }
+
+# --- get_weekday: reduce the ordinal to the 400-year cycle, then it is a finite table check --------
+YO = "(Z)(cs.y % 400)"
+GW = """
+USE(lemma_ord_reduce_REQ(cs.y, cs.m, cs.d), lemma_ord_reduce_ENS(cs.y, cs.m, cs.d), "ord_reduce(cs)");
+USE(lemma_wd_period_REQ(ORD(%(YO)s, cs.m, cs.d), (Z)(cs.y / 400)), lemma_wd_period_ENS(ORD(%(YO)s, cs.m, cs.d), (Z)(cs.y / 400)), "wd_period");
+USE(lemma_wd_cong_REQ(ORD(cs.y, cs.m, cs.d), ORD(%(YO)s, cs.m, cs.d) + (Z)146097 * (Z)(cs.y / 400)), lemma_wd_cong_ENS(ORD(cs.y, cs.m, cs.d), ORD(%(YO)s, cs.m, cs.d) + (Z)146097 * (Z)(cs.y / 400)), "wd_cong");
+STEP(ORD(%(YO)s, cs.m, cs.d) == (Z)ORD_I((int)(cs.y %% 400), cs.m, cs.d), "small ordinal agrees with ORD_I");
+USE(lemma_wd_cong_REQ(ORD(%(YO)s, cs.m, cs.d), (Z)ORD_I((int)(cs.y %% 400), cs.m, cs.d)), lemma_wd_cong_ENS(ORD(%(YO)s, cs.m, cs.d), (Z)ORD_I((int)(cs.y %% 400), cs.m, cs.d)), "wd_cong small");
+STEP(WD((Z)ORD_I((int)(cs.y %% 400), cs.m, cs.d)) == (Z)WD_I(ORD_I((int)(cs.y %% 400), cs.m, cs.d)), "weekday of a small ordinal in 32 bits");
+STEP(0 <= wd %% 7 + 6 && wd %% 7 + 6 < 13 && (int)k_weekday_by_mon_off[wd %% 7 + 6] == WD_I(ORD_I((int)(cs.y %% 400), cs.m, cs.d)), "the table formula is the weekday within the cycle");
+""" % dict(YO=YO)
+HOOKS['get_weekday'] = [(r'return k_weekday_by_mon_off', GW)]
+
+# --- next_weekday / prev_weekday ---------------------------------------------------------------------
+# forw[i] is weekday number i%7, back[i] is weekday number (6 - i%7)
+NW_GHOST = """
+USE(lemma_wd_add_REQ(DAYORD_F(cd), 0), lemma_wd_add_ENS(DAYORD_F(cd), 0), "wd_add(cd,0)");
+"""
+LOOPS['next_weekday'] = {
+    1: """__CPROVER_assigns(i)
+__CPROVER_loop_invariant(0 <= i && i <= (int)base && (int)base <= 6)
+__CPROVER_decreases(7 - i)""",
+    2: """__CPROVER_assigns(j)
+__CPROVER_loop_invariant(i == (int)base && i + 1 <= j && j <= i + 1 + FM((int)wd - (i + 1), 7))
+__CPROVER_decreases(14 - j)""",
+}
+LOOPS['prev_weekday'] = {
+    1: """__CPROVER_assigns(i)
+__CPROVER_loop_invariant(0 <= i && i <= 6 - (int)base && 0 <= (int)base && (int)base <= 6)
+__CPROVER_decreases(7 - i)""",
+    2: """__CPROVER_assigns(j)
+__CPROVER_loop_invariant(i == 6 - (int)base && i + 1 <= j && j <= i + 1 + FM((6 - (int)wd) - (i + 1), 7))
+__CPROVER_decreases(14 - j)""",
+}
+HOOKS['next_weekday'] = [
+    (r'return cd \+', 'USE(lemma_wd_add_REQ(DAYORD_F(cd), j - i), lemma_wd_add_ENS(DAYORD_F(cd), j - i), "wd_add(cd, j-i)");'),
+]
+HOOKS['prev_weekday'] = [
+    (r'return cd -', 'USE(lemma_wd_add_REQ(DAYORD_F(cd), j - i), lemma_wd_add_ENS(DAYORD_F(cd), j - i), "wd_add(cd, j-i)");'),
+]
+
+
+HOOKS['is_leap_year'] = [(r'return y % 4 == 0', "REVEAL_IDX400(y);\nREVEAL_LEAPI(IDX400(y));\nUSE(lemma_I_anchor_REQ(IDX400(y), 1, 1), lemma_I_anchor_ENS(IDX400(y), 1, 1), \"I_anchor(idx)\");")]
+HOOKS['year_index'] = [(r'return yi < 0', "REVEAL_IDX400(y + (m > 2));")]
